@@ -86,6 +86,16 @@ impl<'a> IndexBuilder<'a> {
         self.data.shrink_to_fit();
         trie_entries.sort_by(|(a, _), (b, _)| a.cmp(b));
 
+        // the trie builder asserts on both of these
+        if trie_entries.is_empty() || trie_entries.iter().any(|(k, _)| k.contains('\0')) {
+            return Err(DicBuildError {
+                file: "<trie>".to_owned(),
+                line: 0,
+                cause: BuildFailure::TrieBuildFailure,
+            }
+            .into());
+        }
+
         let trie = yada::builder::DoubleArrayBuilder::build(&trie_entries);
         match trie {
             Some(t) => Ok(t),
